@@ -368,8 +368,11 @@ H(h_sub_fit_1, sub<1>(0)) H(h_sub_fit_2, sub<2>(0)) H(h_sub_fit_3, sub<3>(0))
 //@harness h_sub_fit_3 tier=quick hang_s=60 query_ms=240000 wall=1200 cost=9
 // _16: the bound of the plan (every component < 2^16), kept as an independent, easier instance of the same statements
 H(h_whole_16_1, whole<1>(16)) H(h_whole_16_2, whole<2>(16)) H(h_whole_16_3, whole<3>(16))
-//@harness h_whole_16_{N} for N in 1,2,3 tier=quick hang_s=60
+//@harness h_whole_16_{N} for N in 1,2 tier=quick hang_s=60
+//@harness h_whole_16_3 tier=quick hang_s=60 query_ms=240000 wall=1200 cost=5
 H(h_inject_16_1, inject<1>(16)) H(h_inject_16_2, inject<2>(16)) H(h_inject_16_3, inject<3>(16))
-//@harness h_inject_16_{N} for N in 1,2,3 tier=quick hang_s=60
+//@harness h_inject_16_{N} for N in 1,2 tier=quick hang_s=60
+//@harness h_inject_16_3 tier=quick hang_s=60 query_ms=240000 wall=1200 cost=5
 H(h_sub_16_1, sub<1>(16)) H(h_sub_16_2, sub<2>(16)) H(h_sub_16_3, sub<3>(16))
-//@harness h_sub_16_{N} for N in 1,2,3 tier=quick hang_s=60
+//@harness h_sub_16_{N} for N in 1,2 tier=quick hang_s=60
+//@harness h_sub_16_3 tier=quick hang_s=60 query_ms=240000 wall=1200 cost=5
